@@ -176,8 +176,27 @@ def clean_noise(rng, maxlen=40):
 def bad_frame(rng, p):
     """a frame-like byte string that is NOT the canonical frame of any payload it could be read as,
     with the checksum recomputed for the manipulated framing"""
-    kind = rng.randrange(12)
+    kind = rng.randrange(13)
     body = START + esc(p)
+    if kind == 12:                                  # checksum manipulations on an otherwise canonical frame
+        f = bytearray(frame(p))
+        how = rng.randrange(5)
+        if how == 0 and f[-1] != f[-2]:
+            f[-1], f[-2] = f[-2], f[-1]             # byte order swapped
+        elif how == 1:
+            c = crc16(bytes(f[:-2])) ^ 0xFFFF       # missing final xor
+            f[-2], f[-1] = c & 0xFF, c >> 8
+        elif how == 2:
+            c = crc16(bytes(f[8:-2]))               # start sequence not covered
+            f[-2], f[-1] = c & 0xFF, c >> 8
+        elif how == 3:
+            c = crc16(bytes(f[:-4]))                # end marker / pad count not covered
+            f[-2], f[-1] = c & 0xFF, c >> 8
+        else:
+            f[-1] ^= 0xFF
+        if bytes(f) == frame(p):
+            f[-1] ^= 1
+        return bytes(f)
     pad = (4 - len(body) % 4) % 4
     f = bytearray(frame(p))
     if kind == 0 and len(f) > 9:                    # bit flip
@@ -332,7 +351,7 @@ def prim_tlf(rng, tycode, length, nonmin=0.12):
     if STYLE["nonmin"] is not None:
         nonmin = STYLE["nonmin"]
     if rng.random() < nonmin and tycode != 4:
-        k += rng.randint(1, 2)
+        k += rng.choice([1, 1, 2, 2, 1, 2, 3, 7, 8, 10])       # also zero-padded beyond 8 bytes: still a 32-bit value
         while length + k >= 16 ** k:
             k += 1
     return tlf_bytes(tycode, length + k, k)
@@ -345,7 +364,7 @@ def list_tlf(rng, n, nonmin=0.12):
     if STYLE["nonmin"] is not None:
         nonmin = STYLE["nonmin"]
     if rng.random() < nonmin:
-        k += rng.randint(1, 2)
+        k += rng.choice([1, 1, 2, 2, 1, 2, 3, 7, 8, 10])
     return tlf_bytes(7, n, k)
 
 
@@ -587,13 +606,33 @@ HUGE_TLFS = [bytes.fromhex(x) for x in [
     "ff8f8f8f8f8f8f0f", "ff8f8f8f8f8f8f0e", "f18080808000", "f1808080808000", "f08f8f8f8f8f8f8f0f", "8f8f8f8f8f8f8f0f",
     "818080808080808d", "81808080808080800d", "8f8f0f", "ff0f", "f100", "ef8f8f8f8f8f8f0f", "df0f", "7f", "8002", "8001",
     "e00a", "d00a", "c3", "42", "4f", "10", "20", "30", "00", "81", "f0", "8f80", "8110", "f1808080808080808080808000"]]
+# zero-padded TLFs of 256 / 257 / 300 bytes (list of 6, list of 7, octet string of 4, unsigned of 1): 32-bit values in a
+# field longer than any 8-bit byte counter; placed FIRST so that the quick tier uses them too
+HUGE_TLFS = [tlf_bytes(7, 6, 256), tlf_bytes(7, 7, 257), tlf_bytes(0, 4 + 256, 256), tlf_bytes(6, 1 + 300, 300)] + HUGE_TLFS
 
 
 def mutate_message(rng, m):
     """mutate the pre-CRC chunks of a message; returns (new chunk list, description)"""
     ch = [bytes(c) for c in m["chunks"]]
-    kind = rng.randrange(12)
+    kind = rng.randrange(14)
     i = rng.randrange(len(ch))
+    if kind == 12:
+        # a Time position filled with a bare unsigned of 1-3 data bytes plus filler so that a parser ignoring the
+        # declared length (reading 4 bytes) stays in step: must be rejected
+        idx = [j for j, c in enumerate(ch) if c[:1] == b"\x65" and len(c) == 5 or (c[:1] == b"\x72" and len(c) >= 5)]
+        j = rng.choice(idx) if idx else i
+        k = rng.randint(1, 3)
+        ch[j] = bytes([0x61 + k]) + rnd_bytes(rng, 4, 4)
+        return ch, "shorttime"
+    if kind == 13:
+        # announced list length larger/smaller than the entries present (list TLF re-written)
+        idx = [j for j, c in enumerate(ch) if c and (c[0] & 0x70) == 0x70 and not (c[0] & 0x80) and j + 1 < len(ch)
+               and ch[j + 1][:1] == b"\x77"]
+        if idx:
+            j = rng.choice(idx)
+            n = ch[j][0] & 0xF
+            ch[j] = list_tlf(rng, max(0, n + rng.choice([1, 1, 2, 3, 40, -1])), nonmin=0.3)
+        return ch, "listcount"
     if kind in (10, 11):
         # re-encode the one-byte TLF at the head of a field in a longer form spelling the same length: a valid
         # alternative encoding for strings, integers and lists, a reserved one for booleans
@@ -673,6 +712,8 @@ def gen_mutant(rng):
     if r < 0.18:
         return data[:rng.randrange(len(data))], "raw-truncate"
     if r < 0.24:
+        if rng.random() < 0.4:
+            return data + bytes(rng.randint(1, 5)), "raw-extend-zeros"      # fill bytes after the last message
         return data + rnd_bytes(rng, 1, 4), "raw-extend"
     if r < 0.30:
         # cut exactly at a field boundary (in particular: before the checksum field, after a complete list entry)
